@@ -334,6 +334,17 @@ impl Context {
                 fileids.insert(fileid);
             }
         }
+        // Merging drops the tombstones of the files it rewrites. An older file that is left
+        // behind may still hold a value that one of those tombstones deletes, and that value
+        // would come back on the next start-up. So everything older than the newest selected
+        // file is merged along with it.
+        if let Some(newest) = fileids.iter().next_back().copied() {
+            for entry in self.stats.iter() {
+                if *entry.key() < newest {
+                    fileids.insert(*entry.key());
+                }
+            }
+        }
         Ok(fileids)
     }
 }
